@@ -14,9 +14,13 @@
    Not covered by a theorem: the trivially-relocatable overloads (memmove of raw slots), whole operation histories, sets.
    Those are decided on the implementation by the identity-carrying element types of the drivers (per-object status table,
    self == this check for non-relocatable elements, live count == sum of sizes after every step, 0 at the end) under
-   ASan/UBSan, over the same systematic and random histories as C01/C03/C04. *)
+   ASan/UBSan, over the same systematic and random histories as C01/C03/C04.
+   Trivially relocatable element types (SlotsTR.v): a bitwise relocation leaves its source RAW (no object, no destructor) and is a
+   lifetime error of the model on a dead source or a live destination; [C02_tr_*]: the shifting helpers, erase and insertion of
+   the trivially relocatable overloads never commit one, destroy every removed object exactly once and give the specified list. *)
 From Coq Require Import ZArith List Bool.
 From Amc Require Import Slots Erase Alias MemAlgos.
+From Amc Require Throw EmplaceGrow ThrowMove SlotsTR.
 Import ListNotations.
 
 Theorem C02_insert_count :
@@ -42,3 +46,28 @@ Proof. exact impl_mode_allowed. Qed.
 
 Example C02_example : exists m', erase_n Erase.m1 0 1 2 = inr m' /\ abs m' 2 = [11; 12]%Z /\ m' 2 = Raw.
 Proof. eexists. split; [reflexivity|]. split; reflexivity. Qed.
+
+(* ---- trivially relocatable overloads (bitwise relocation: the source slot holds no object afterwards) ---- *)
+Theorem C02_tr_relocate_range :
+  forall m src n dst,
+    (forall k, k < n -> EmplaceGrow.alive (m (src + k)) = true) ->
+    (forall j, dst <= j < dst + n -> ~ (src <= j < src + n) -> m j = Throw.Raw) ->
+    exists m', SlotsTR.relocate_n m src n dst = inl m' /\
+      (forall k, k < n -> m' (dst + k) = m (src + k)) /\
+      (forall j, src <= j < src + n -> ~ (dst <= j < dst + n) -> m' j = Throw.Raw) /\
+      (forall j, ~ (dst <= j < dst + n) -> ~ (src <= j < src + n) -> m' j = m j).
+Proof. exact SlotsTR.relocate_n_spec. Qed.
+
+Theorem C02_tr_erase_range :
+  forall m size cap pos n, Throw.Inv m size cap -> pos + n <= size ->
+  exists m', SlotsTR.erase_n m pos n (size - pos - n) = inl m' /\ Throw.Inv m' (size - n) cap /\
+    (forall j, j < pos -> m' j = m j) /\ (forall j, pos <= j < size - n -> m' j = m (j + n)) /\
+    Slots.abs (ThrowMove.toSm m') (size - n) = Erase.spec_erase (Slots.abs (ThrowMove.toSm m) size) pos n.
+Proof. exact SlotsTR.erase_n_correct. Qed.
+
+Theorem C02_tr_shift_right_count :
+  forall m size cap pos count, Throw.Inv m size cap -> pos <= size -> size + count <= cap ->
+  exists m', SlotsTR.shift_right_cnt m pos (size - pos) count = inl m' /\ (forall j, j < pos -> m' j = m j) /\
+    (forall j, pos <= j < pos + count -> m' j = Throw.Raw) /\ (forall j, pos + count <= j < size + count -> m' j = m (j - count)) /\
+    (forall j, size + count <= j -> m' j = m j).
+Proof. exact SlotsTR.shift_right_cnt_inv. Qed.
